@@ -151,14 +151,16 @@ func (l *LocalKMS) Rotate(kt kmsapi.KeyType, keyID string, opts ...kmsapi.KeyOpt
 		return "", nil, fmt.Errorf("rotate: failed to get kms keyest handle: %w", err)
 	}
 
-	err = l.store.Delete(keyID)
-	if err != nil {
-		return "", nil, fmt.Errorf("rotate: failed to delete entry for kid '%s': %w", keyID, err)
-	}
-
+	// store the updated keyset first and delete the old entry last: an interruption (or a failing store call)
+	// in between must never leave the store without the key.
 	newID, err := l.storeKeySet(updatedKH, kt)
 	if err != nil {
 		return "", nil, fmt.Errorf("rotate: failed to store keySet: %w", err)
+	}
+
+	err = l.store.Delete(keyID)
+	if err != nil {
+		return "", nil, fmt.Errorf("rotate: failed to delete entry for kid '%s': %w", keyID, err)
 	}
 
 	return newID, updatedKH, nil
